@@ -436,6 +436,24 @@ def _fit_linear(g):
                 'coefficients, large data the initial guess')
     defs = {}
     for st in body:
+        # straight-line code of plain bindings: anything else (a masked or
+        # augmented store, a loop, a conditional) can alter the solution
+        # between the solve and the store
+        t = st.targets[0] if isinstance(st, ast.Assign) and \
+            len(st.targets) == 1 else None
+        plain = t is not None and (
+            isinstance(t, ast.Name) or
+            (isinstance(t, ast.Tuple) and all(isinstance(x, ast.Name)
+                                              for x in t.elts)) or
+            unparse(t) == 'self.zernike.coeffs')
+        guard = isinstance(st, ast.If) and not st.orelse and all(
+            isinstance(b, ast.Raise) for b in st.body)
+        if not plain and not guard and not isinstance(st, ast.Pass):
+            return (f'`{unparse(st)[:70]}` is not a plain binding: the '
+                    f'coefficients that are stored need not be the '
+                    f'least-squares solution (e.g. small ones set to zero: '
+                    f'the fit is no longer linear in the data)')
+    for st in body:
         if isinstance(st, ast.Assign) and len(st.targets) == 1:
             t = st.targets[0]
             if isinstance(t, ast.Name):
